@@ -41,6 +41,18 @@
 // @funcs PBasic::basic_run; PBasic::cmdlet; PBasic::cmddim
 // @bounds string array of 4 elements; assignment a$(i) = a$(j) + "x" for all i, j in 0..3 (case split), then every element is read back
 // @oracle only element i changes and it holds the old a$(j) followed by "x" (the left-hand side is fixed before the right-hand side is evaluated)
+// @id C17.nested_for_early_exit
+// @engine B
+// @entry vfh_C17_nested_for
+// @shared_state_watch
+// @tier Q
+// @opts max_steps=60000000
+// @reach basic.ran
+// @funcs PBasic::basic_run; PBasic::cmdfor; PBasic::cmdnext; PBasic::cmdgoto
+// @bounds two nested FOR loops (outer 1..3, inner 1..5) where the inner loop is left early by IF ... THEN GOTO when its counter reaches k (k in 1..6 by case split; 6 = never) and the outer loop is then closed with NEXT <outer variable>; a WHILE/WEND around a FOR with the same early exit
+// @oracle control flow is that of standard BASIC: NEXT v closes the loop of variable v (abandoning inner loops that were left early), so the outer loop runs all its iterations; the accumulated value equals that of the same program written in C++
+// @stubs PHRQ_io::error_msg / warning_msg (counted)
+// @outside GOSUB/RETURN, ON GOTO
 // @id C17.string_functions
 // @also C08
 // @engine B
@@ -275,4 +287,22 @@ extern "C" void vfh_C17_string_functions(void)
 		cell_text(0, got, sizeof got);
 		vf_check("strings.chr_asc_str", strncmp(got, "[b", 2) == 0 && strstr(got, "12") != 0);
 	}
+}
+
+extern "C" void vfh_C17_nested_for(void)
+{
+	int k = (int) vf_int("inner_exit_at", 1, 6), shape = (int) vf_int("outer_construct", 0, 1);
+	std::ostringstream os;
+	os << "10 total = 0\n";
+	if (shape == 0) os << "20 FOR i = 1 TO 3\n"; else os << "15 i = 1\n20 WHILE i <= 3\n";
+	os << "30 FOR j = 1 TO 5\n40 IF j = " << k << " THEN GOTO 70\n50 total = total + 10 * i + j\n60 NEXT j\n70 total = total + 1000\n";
+	if (shape == 0) os << "80 NEXT i\n"; else os << "75 i = i + 1\n80 WEND\n";
+	os << "90 SAVE total\n";
+	Interp I;
+	int rc = -99; bool threw = false;
+	try { rc = run(I, os.str()); } catch (...) { threw = true; }
+	vf_check("nested.no_error", !threw && rc == 0 && g_err == 0);
+	double want = 0;
+	for (int i = 1; i <= 3; i++) { for (int j = 1; j <= 5; j++) { if (j == k) break; want += 10 * i + j; } want += 1000; }
+	if (!threw) vf_close("nested.accumulated_value", I.p->rate_moles, want, 0, 0);
 }
